@@ -656,12 +656,11 @@ Proof.
     - rewrite (unwind_prefix (es ++ [snap_entry s]) (journal s) n s2); [|rewrite J2, Jb, <- app_assoc; reflexivity|reflexivity].
       rewrite app_length, unwind_k_add. reflexivity. }
   assert (Hlim : le s (unwind n s1)).
-  { apply (Hcore s1 s1 []); auto.
+  { apply (Hcore s1 s1 []); [exact J1 | | | | | reflexivity | apply rel_refl].
     - apply snapshot_txs.
     - apply snapshot_cf.
     - unfold s1. rewrite snapshot_aux. apply auxeq_refl.
-    - intros x o Ho. unfold s1. rewrite snapshot_objs. exact Ho.
-    - apply rel_refl. }
+    - intros x o Ho. unfold s1. rewrite snapshot_objs. exact Ho. }
   unfold precompile_call. fold n s1.
   assert (Hrev : forall sX, (n <= length (journal sX))%nat -> le s (unwind n sX) -> WFJ sX ->
                  (length (journal s) <= length (journal (unwind n sX)))%nat /\
@@ -679,7 +678,7 @@ Proof.
     destruct (run_sends_bop (snap_sc s) sends sF HWF HDF) as (es & J2 & P2 & R2 & W2 & D2).
     set (s2 := run_sends sends sF) in *.
     assert (HL2 : le s (unwind n s2)).
-    { apply (Hcore sF s2 es); auto.
+    { apply (Hcore sF s2 es); [| | | | | exact J2 | exact R2].
       - change (journal sF) with (journal s1). exact J1.
       - change (txs sF) with (txs s1). apply snapshot_txs.
       - change (cf sF) with (cf s1). apply snapshot_cf.
@@ -693,3 +692,55 @@ Proof.
     + apply Hrev; assumption.
     + split; [exact Hlen2|]. split; [exact HL2 | exact W2].
 Qed.
+
+(** ======================= all scripts ======================= *)
+Fixpoint psize (p : prog) : nat :=
+  match p with
+  | PFrame body _ => S (list_sum (map psize body))
+  | _ => 1%nat
+  end.
+
+Lemma run_frame body rv s :
+  run (PFrame body rv) s = if rv then unwind (length (journal s)) (run_body body s) else run_body body s.
+Proof. reflexivity. Qed.
+Lemma run_body_cons p t s : run_body (p :: t) s = run_body t (run p s).
+Proof. reflexivity. Qed.
+Lemma run_body_nil s : run_body [] s = s. Proof. reflexivity. Qed.
+
+Lemma run_ok_aux n : forall p s, (psize p <= n)%nat -> op_ok s (run p s).
+Proof.
+  induction n as [|n IH]; intros p s Hn.
+  - destruct p; simpl in Hn; lia.
+  - destruct p; try (simpl; first
+      [ apply add_balance_ok | apply sub_balance_ok | apply set_nonce_ok | apply set_code_ok | apply set_state_ok
+      | apply selfdestruct_ok | apply evm_create_ok | apply add_log_ok | apply set_refund_ok | apply sub_refund_ok
+      | apply access_addr_ok | apply access_slot_ok | apply touch_ok | apply read_state_ok | apply precompile_call_ok ]).
+    assert (Hbody : forall l s0, (list_sum (map psize l) <= n)%nat -> op_ok s0 (run_body l s0)).
+    { induction l as [|x t IHl]; intros s0 Hl.
+      - apply op_ok_refl.
+      - rewrite run_body_cons. simpl in Hl.
+        apply (op_ok_trans s0 (run x s0)); [apply (IH x); lia | apply IHl; lia]. }
+    cbn [psize] in Hn. rewrite run_frame.
+    assert (Hb : op_ok s (run_body body s)) by (apply Hbody; lia).
+    destruct reverted; [|exact Hb].
+    intros HW. destruct (Hb HW) as (L & HE & HW').
+    pose proof (unwind_len _ _ L) as Hl.
+    split; [lia|]. split; [|apply WFJ_unwind; exact HW'].
+    rewrite <- Hl at 1. rewrite unwind_id. exact HE.
+Qed.
+
+Theorem run_ok p s : op_ok s (run p s).
+Proof. apply (run_ok_aux (psize p)). lia. Qed.
+
+Lemma run_body_ok body s : op_ok s (run_body body s).
+Proof. pose proof (run_ok (PFrame body false) s) as H. rewrite run_frame in H. exact H. Qed.
+
+(** (P1) A reverted frame leaves a refinement of the state it started from. *)
+Theorem reverted_frame_invisible body s : WFJ s -> le s (run (PFrame body true) s) /\ WFJ (run (PFrame body true) s).
+Proof.
+  intros HW. destruct (run_body_ok body s HW) as (L & HE & HW').
+  rewrite run_frame. split; [exact HE | apply WFJ_unwind; exact HW'].
+Qed.
+
+Lemma WFJ_init c t : repaired c = true -> WFJ (init c t).
+Proof. intros H. split; [|split]; simpl; auto. intros sv sd sc []. Qed.
